@@ -29,33 +29,46 @@ def real_fixed_value(schema):
     return True, v
 
 
+ENTRY_OBS = {}      # combination of answers -> {"count", "example"}
+
+
 def accepts(schema, value):
-    """Does the schema accept the value?  The answer of validate().  `schema == value`,
-    `schema != value` and validate_or_fail() are public entry points to the same validator; when
-    one of them answers differently, the *deviating* answer is returned, so that the deviation
-    surfaces in whatever clause consumes the observation (on a tree where the entry points agree
-    this is exactly validate())."""
+    """Does the schema accept the value?  The answer of validate(): no errors.  has_errors(),
+    `schema == value`, `schema != value` and validate_or_fail() are other public ways of asking the
+    same question; every combination of answers seen is recorded and judged by
+    spec/Trace_Entry.tla at the end of the run (core.Check.finish)."""
     import d42
     try:
-        ok = not d42.validate(schema, value).has_errors()
+        res = d42.validate(schema, value)
+        no_errors = len(res.get_errors()) == 0
+        has_errors = bool(res.has_errors())
     except Exception:
         return False
     from d42.declaration import Schema
     if isinstance(value, Schema):
-        return ok                        # == between two schemas is structural equality
+        return no_errors                 # == between two schemas is structural equality
     try:
-        if bool(schema == value) != ok or bool(schema != value) == ok:
-            return not ok
+        eq = "true" if (schema == value) else "false"
     except Exception:
-        pass
+        eq = "raised"
+    try:
+        ne = "true" if (schema != value) else "false"
+    except Exception:
+        ne = "raised"
     try:
         d42.validate_or_fail(schema, value)
-        vof = True
+        vof = "true"
     except d42.ValidationException:
-        vof = False
+        vof = "exception"
     except Exception:
-        vof = ok                         # rendering the message failed: no information (C08's subject)
-    return ok if vof == ok else not ok
+        vof = "other"                    # rendering the message failed: C08's subject
+    key = (no_errors, has_errors, eq, ne, vof)
+    slot = ENTRY_OBS.get(key)
+    if slot is None:
+        ENTRY_OBS[key] = {"count": 1, "example": {"schema": safe_repr(schema)[:300], "value": safe_repr(value)[:200]}}
+    else:
+        slot["count"] += 1
+    return no_errors
 
 
 def exercise(schema):
